@@ -27,11 +27,12 @@ fourth class, definitions nested in DEFCIRCUIT bodies, was repaired in /repo by 
 ## What is proved
 
 `C02_roundtrip_partial`: the statement for every program whose instructions all satisfy the explicit
-decidable predicate `provedKind` (33 of the 40 printable kinds: all classical instructions with literal
+decidable predicate `provedKind` (34 of the 40 printable kinds: all classical instructions with literal
 operands, DECLARE with SHARING/OFFSET, control flow, MEASURE, RESET, FENCE, PRAGMA (incl. EXTERN), INCLUDE,
 HALT/NOP/WAIT, gate applications with modifiers and expression parameters, SET-FREQUENCY, SET-PHASE, SET-SCALE, SHIFT-FREQUENCY, SHIFT-PHASE,
 SWAP-PHASES, DELAY with and without frame names, RAW-CAPTURE into a region not named `i`, CAPTURE and PULSE with waveform
-invocations), with `≈` being equality up to the order of waveform parameters (`mapProg canonInstr`).  The remaining kinds are covered by the correspondence check
+invocations, CALL with identifier / memory-reference / immediate arguments where no real immediate is directly
+followed by an argument named `i`), with `≈` being equality up to the order of waveform parameters (`mapProg canonInstr`).  The remaining kinds are covered by the correspondence check
 only (every accepted text is run through the real pipeline AND the model, which must agree).
 -/
 namespace QV.C02
